@@ -982,6 +982,13 @@ func (s *Sim) opTable() []opEntry {
 		{"setpolicy", func() { s.opSetPolicy(false) }}, {"setsubpolicy", func() { s.opSetPolicy(true) }},
 		{"plan_add", s.opPlanAdd}, {"plan_del", s.opPlanDel}, {"param", s.opParam}, {"iprpc_data", s.opIprpcData}, {"fund_iprpc", s.opFundIprpc},
 		{"relay", s.opRelay}, {"relay_hostile", s.opRelayHostile},
+		{"param_epoch", func() {
+			if s.R.Intn(2) == 0 {
+				s.paramChange("epochstorage", "EpochBlocks", fmt.Sprintf("\"%d\"", 2+s.R.Intn(30)))
+			} else {
+				s.paramChange("epochstorage", "EpochsToSave", fmt.Sprintf("\"%d\"", 1+s.R.Intn(10)))
+			}
+		}},
 		{"conflict", s.opConflict},
 	}
 }
